@@ -97,6 +97,12 @@ func c03Run(e *Env) {
 		e.EnablePark("map.LoadOrStore.gap", 0, 1, 3)
 	}
 	e.Wait()
+	if !IsDatagram(tr) && bw {
+		// block-wise on a stream needs the peer's CSM to announce it
+		it := w.Queue(&WMsg{Code: 0xe1, Token: []byte{1}, Opts: []WOpt{{Num: OptTCPBlockWise}}}, "csm")
+		w.Emit(it, false)
+		e.Wait()
+	}
 	w.Pump()
 	e.Logf("cfg transport=%s bw=%v limit=%d callers=%d dup=%d seg=%d collisions=%v parks=%d", tr, bw, limit, nCallers, w.DupW, w.SegW, collisions, parks)
 
@@ -106,19 +112,46 @@ func c03Run(e *Env) {
 	for i := range remaining {
 		remaining[i] = 1 + t.Choose(4)
 	}
+	// with block-wise on, every third request is answered with a two-block body (16-byte blocks)
+	blocky := func(n int) bool { return bw && n%3 == 2 }
+	respPayload := func(n int) []byte {
+		if blocky(n) {
+			return []byte(fmt.Sprintf("resp-%d-0123456789abcdefgh", n))
+		}
+		return []byte(fmt.Sprintf("resp-%d", n))
+	}
+	blockOpts := func(n int, num uint32) ([]WOpt, []byte) {
+		pl := respPayload(n)
+		if !blocky(n) {
+			return nil, pl
+		}
+		lo, hi := int(num)*16, int(num)*16+16
+		if lo > len(pl) {
+			lo = len(pl)
+		}
+		more := hi < len(pl)
+		if hi > len(pl) {
+			hi = len(pl)
+		}
+		return []WOpt{UintOpt(OptBlock2, BlockOpt(num, more, 0)), UintOpt(OptSize2, uint32(len(pl)))}, pl[lo:hi]
+	}
 	completedTokens := [][]byte{}
 	sharedTokens := [][]byte{}
-	queueResp := func(m *WMsg, label string) *OutItem {
+	itemReq := map[*OutItem]int{} // answer item -> nonce of the request it answers
+	queueResp := func(n int, m *WMsg, label string) *OutItem {
 		it := w.Queue(m, label)
+		itemReq[it] = n
+		if blocky(n) {
+			it.NoDup = true // a duplicated block makes the library ask twice; the second answer could outlive the exchange
+		}
 		for _, st := range sharedTokens {
-			if bytes.Equal(st, m.Token) {
+			if bytes.Equal(st, m.Token) && !(IsDatagram(tr) && m.Type == TCON) {
 				it.NoDup = true
 			}
 		}
 		return it
 	}
 
-	respPayload := func(n int) []byte { return []byte(fmt.Sprintf("resp-%d", n)) }
 	outstanding := func(r *c03Req) bool { return r.call != nil && !r.call.Done() && !r.answered }
 
 	w.OnEmit = func(it *OutItem, dup bool) {
@@ -131,14 +164,21 @@ func c03Run(e *Env) {
 					if r.policy == 2 {
 						typ = TNON
 					}
-					queueResp(&WMsg{Type: typ, Code: 0x45, MID: w.NextPeerMID(), Token: r.token, Payload: respPayload(r.nonce)}, fmt.Sprintf("separate-resp(n=%d)", r.nonce))
+					o, pl := blockOpts(r.nonce, 0)
+					queueResp(r.nonce, &WMsg{Type: typ, Code: 0x45, MID: w.NextPeerMID(), Token: r.token, Opts: o, Payload: pl}, fmt.Sprintf("separate-resp(n=%d)", r.nonce))
 				}
 			}
 		}
 		// an answer for nonce n is being handed to the connection
 		if it.M != nil && it.M.Code >= 0x40 {
-			var n int
-			if _, err := fmt.Sscanf(string(it.M.Payload), "resp-%d", &n); err == nil && n >= 0 && n < len(reqs) {
+			n := -1
+			if x, ok := itemReq[it]; ok {
+				n = x
+			}
+			if b2, ok := it.M.OptUint(OptBlock2); ok && b2&8 != 0 {
+				n = -1 // not the final block yet
+			}
+			if n >= 0 && n < len(reqs) {
 				r := reqs[n]
 				if !r.answered && r.call != nil && !r.call.Done() && r.call.Ctx.Err() == nil && bytes.Equal(it.M.Token, r.token) {
 					r.answered, r.answeredAt = true, e.Phase()
@@ -158,12 +198,24 @@ func c03Run(e *Env) {
 			return
 		}
 		r := reqs[n]
+		if b2, ok := m.OptUint(OptBlock2); ok && b2>>4 >= 1 && blocky(n) {
+			// continuation request of a block-wise download: serve the requested block (piggybacked)
+			o, pl := blockOpts(n, b2>>4)
+			if IsDatagram(tr) && m.Type == TCON {
+				queueResp(n, &WMsg{Type: TACK, Code: 0x45, MID: m.MID, Token: m.Token, Opts: o, Payload: pl}, fmt.Sprintf("block%d(n=%d)", b2>>4, n))
+			} else {
+				queueResp(n, &WMsg{Type: TNON, Code: 0x45, MID: w.NextPeerMID(), Token: m.Token, Opts: o, Payload: pl}, fmt.Sprintf("block%d(n=%d)", b2>>4, n))
+			}
+			e.Probe("blockwise.continuationServed")
+			return
+		}
 		if r.atPeer {
 			// retransmitted copy: a real server repeats its acknowledgement
 			if IsDatagram(tr) && m.Type == TCON {
 				switch r.policy {
 				case 0:
-					queueResp(&WMsg{Type: TACK, Code: 0x45, MID: m.MID, Token: m.Token, Payload: respPayload(n)}, fmt.Sprintf("piggyback-again(n=%d)", n))
+					o, pl := blockOpts(n, 0)
+					queueResp(n, &WMsg{Type: TACK, Code: 0x45, MID: m.MID, Token: m.Token, Opts: o, Payload: pl}, fmt.Sprintf("piggyback-again(n=%d)", n))
 				default:
 					w.Queue(&WMsg{Type: TACK, Code: 0, MID: m.MID}, fmt.Sprintf("ack-again(n=%d)", n))
 				}
@@ -186,14 +238,16 @@ func c03Run(e *Env) {
 		if IsDatagram(tr) && m.Type == TCON {
 			r.policy = t.Choose(3) // 0 piggyback, 1 ack + separate CON, 2 ack + separate NON
 			if r.policy == 0 {
-				queueResp(&WMsg{Type: TACK, Code: 0x45, MID: m.MID, Token: m.Token, Payload: respPayload(n)}, fmt.Sprintf("piggyback(n=%d)", n))
+				o, pl := blockOpts(n, 0)
+				queueResp(n, &WMsg{Type: TACK, Code: 0x45, MID: m.MID, Token: m.Token, Opts: o, Payload: pl}, fmt.Sprintf("piggyback(n=%d)", n))
 			} else {
 				r.ackItem = w.Queue(&WMsg{Type: TACK, Code: 0, MID: m.MID}, fmt.Sprintf("ack(n=%d)", n))
 				r.ackItem.NoDrop = true
 			}
 		} else {
 			typ := TNON
-			queueResp(&WMsg{Type: typ, Code: 0x45, MID: w.NextPeerMID(), Token: m.Token, Payload: respPayload(n)}, fmt.Sprintf("resp(n=%d)", n))
+			o, pl := blockOpts(n, 0)
+			queueResp(n, &WMsg{Type: typ, Code: 0x45, MID: w.NextPeerMID(), Token: m.Token, Opts: o, Payload: pl}, fmt.Sprintf("resp(n=%d)", n))
 		}
 		// R5: wire-level cross-check of the limiter
 		if limit > 0 {
@@ -291,6 +345,11 @@ func c03Run(e *Env) {
 							sharedTokens = append(sharedTokens, r.token)
 							for _, it := range w.Outbox {
 								if it.M != nil && bytes.Equal(it.M.Token, r.token) {
+									if IsDatagram(tr) && it.M.Type == TCON {
+										// a network duplicate of a confirmable message carries the same message ID:
+										// the de-duplication layer has to swallow it, whatever token it carries
+										continue
+									}
 									if it.Emitted > 0 {
 										it.Gone = true
 									}
